@@ -111,6 +111,7 @@ A_TimerStart  == \E i \in DOMAIN tmr : TimerStart(i) /\ Sch
 A_TimerFire   == \E i \in DOMAIN tmr : TimerFire(i) /\ Sch
 A_TimerFlushed == \E i \in DOMAIN tmr : TimerFlushed(i) /\ Sch
 A_TimerEnd    == \E i \in DOMAIN tmr : TimerEnd(i) /\ Sch
+A_TimerBodyEnd == \E i \in DOMAIN tmr : TimerBodyEnd(i) /\ Sch
 Busy == \/ \E a \in Actor : LoopCanStep(a)
         \/ \E c \in Client : cli[c].stage # "idle" /\ ClientContEnabled(c)
         \/ \E i \in DOMAIN tmr : TimerCanStep(i)
@@ -132,7 +133,7 @@ MCNext ==
   \/ A_PingHandled \/ A_HandleBegin \/ A_HandleEnd \/ A_TimeoutFire \/ A_TimeoutBeforeStart \/ A_RestartTaken \/ A_RestartStopped
   \/ A_RestartRefresh \/ A_RestartStarted \/ A_StoppedEnd \/ A_Notify \/ A_Exit \/ A_Advance \/ A_Cancel
   \/ A_StreamItem \/ A_StreamDone \/ A_FinishedEnd \/ A_StreamFeed
-  \/ A_TimerStart \/ A_TimerFire \/ A_TimerFlushed \/ A_TimerEnd
+  \/ A_TimerStart \/ A_TimerFire \/ A_TimerFlushed \/ A_TimerEnd \/ A_TimerBodyEnd
 
 MCSpec == MCInit /\ [][MCNext]_mcvars
 
